@@ -920,8 +920,39 @@ LOOKUP_ASSUME = SERVER_ASSUME + [
 ]
 
 
+LOOKUP_MC_CFG = """SPECIFICATION Spec
+CONSTANTS
+  FAMILY = "%(family)s"
+  UNI = {%(uni)s}
+  AnnounceC = TRUE
+  EndgameQueriesAll = %(eg)s
+INVARIANT Safety
+INVARIANT CoopProps
+INVARIANT CoopYields
+%(live)s
+CHECK_DEADLOCK FALSE
+"""
+
+
+def lookup_mc(ctx, families):
+    """Design level: the search mechanism (spec/Lookup.tla) over every environment of the given families."""
+    q = ctx.quick
+    for fam in families:
+        uni = {"coop": "1, 3, 6, 12" if q else "1, 3, 6, 9, 12", "timing": "1, 3, 6" if q else "1, 3, 6, 12"}[fam]
+        if fam == "timing" and not q:
+            uni = "1, 3, 6"   # 6^4 delay functions x 2 x 2 x starts do not finish within the budget; keep 3 nodes, all orders
+        r = vlib.tlc("mc/MC_Lookup.tla", ctx.cfg("mclookup-%s.cfg" % fam, LOOKUP_MC_CFG % dict(
+            family=fam, uni=uni, eg="TRUE", live="PROPERTY Terminates")), workers=8 if q else 16, timeout=1500 if q else 3400, heap="8g")
+        vlib.require_mc_ok(r, "MC_Lookup(%s)" % fam)
+        ctx.add_mc("MC_Lookup(%s, universe {%s}, ALPHA=2 BETA=2 ANN=2, safety + termination under fairness)" % (fam, uni), r)
+    neg = vlib.tlc("mc/MC_Lookup.tla", ctx.cfg("mclookup-neg.cfg", LOOKUP_MC_CFG % dict(
+        family="coop", uni="1, 3, 6, 12", eg="FALSE", live="")), workers=4, timeout=900)
+    vlib.require_mc_fails(neg, "CoopProps", "EndgameQueriesAll=FALSE")
+
+
 def lookup_check(ctx, kind, strict, sizes_q, sizes_t, seeds_q, seeds_t, what):
-    ctx.level = "exploration"
+    ctx.level = "model_checking"
+    lookup_mc(ctx, ["coop"] if kind == "coop" else ["timing"] if kind == "timing" else ["coop", "timing"])
     q = ctx.quick
     sc = lookup_scenarios(ctx, kind, sizes_q if q else sizes_t, seeds_q if q else seeds_t)
     parts, known = run_node_scenarios(ctx, sc, strict, kind)
@@ -978,7 +1009,7 @@ def maint_scenarios(ctx, minutes_q=60, minutes_t=240):
 
 
 def generic_node_check(ctx, scenarios, strict, what, rule, min_events=None):
-    ctx.level = "exploration"
+    ctx.level = "model_checking" if ctx.cov["states"] > 0 else "exploration"
     parts, known = run_node_scenarios(ctx, scenarios, strict, what)
     n, kinds = node_stats(ctx, parts)
     ctx.cov["traces_validated_against_impl"] = len(parts)
@@ -1002,7 +1033,43 @@ def check_C11(ctx):
                        "interleaved searches; a case = one load_contacts() sample", {"ApiContacts": 500})
 
 
+HANDLER_MC_CFG = """SPECIFICATION Spec
+CONSTANTS
+  CancelPending = %(cancel)s
+  QueueEarly = %(queue)s
+  REFRESH_MS = 6000
+  MAXROUNDS = %(rounds)d
+  WAITERS = {1%(w2)s}
+  SEARCHES = {1, 2}
+  TICKS = {5000}
+  MAXTIME = %(maxtime)d
+INVARIANT AtMostOneRefreshTimer
+INVARIANT RoundsBounded
+INVARIANT NoLookupBeforeInitialBootstrap
+INVARIANT QueuedAreStarted
+INVARIANT WaitersToldOnSuccess
+CHECK_DEADLOCK FALSE
+"""
+
+
+def handler_mc(ctx, guard):
+    """Design level: timers / refresh chain / waiters / early-search queue of the event loop (spec/Handler.tla); the pinned-tree
+    policy named by `guard` must be caught."""
+    q = ctx.quick
+    r = vlib.tlc("mc/MC_Handler.tla", ctx.cfg("mchandler.cfg", HANDLER_MC_CFG % dict(
+        cancel="TRUE", queue="TRUE", rounds=5 if q else 7, w2="" if q else ", 2", maxtime=30000 if q else 40000)),
+        workers=8 if q else 16, timeout=900 if q else 3400, heap="8g" if q else "24g")
+    vlib.require_mc_ok(r, "MC_Handler")
+    ctx.add_mc("MC_Handler(re-bootstraps x timers x waiters x early searches)", r)
+    neg = vlib.tlc("mc/MC_Handler.tla", ctx.cfg("mchandler-neg.cfg", HANDLER_MC_CFG % dict(
+        cancel="FALSE" if guard == "C18" else "TRUE", queue="FALSE" if guard == "C16" else "TRUE", rounds=5, w2="", maxtime=30000)),
+        workers=4, timeout=600)
+    if guard in ("C18", "C16") and neg.no_error:
+        raise ToolError("vacuity guard: the pinned-tree policy for %s was not caught by MC_Handler" % guard)
+
+
 def check_C18(ctx):
+    handler_mc(ctx, "C18")
     ctx.assumptions += LOOKUP_ASSUME + ["refresh rounds are observed through hook H3 (RefreshRound) because a round that pings nobody is invisible on the wire"]
     sc = maint_scenarios(ctx, 45, 360)
     sc = [sc[0], sc[2], sc[3], sc[6], sc[8]] if ctx.quick else sc[:30]
@@ -1013,6 +1080,7 @@ def check_C18(ctx):
 
 
 def check_C15(ctx):
+    handler_mc(ctx, "C15")
     ctx.assumptions += LOOKUP_ASSUME + ["routers are given as IP literals (the sandbox has no DNS)",
                                         "the 11-minute bound is checked for plain-node configurations from the instant the network becomes reachable"]
     seeds = list(range(0, 16)) if ctx.quick else list(range(0, 70))
@@ -1024,6 +1092,7 @@ def check_C15(ctx):
 
 
 def check_C16(ctx):
+    handler_mc(ctx, "C16")
     ctx.assumptions += LOOKUP_ASSUME + ["the twin search is issued right after bootstrapped() resolves; the oracle network is static, so both must yield the same multiset"]
     seeds = list(range(0, 15)) if ctx.quick else list(range(0, 60))
     sc = [("early-s%d" % s, ["--scenario", "early", "--seed", str(s + (vlib.seed() % 5) * 15)]) for s in seeds]
